@@ -18,6 +18,7 @@ subcomponents) and the copy protocols (deepcopy, pickle, serialise-and-parse) ar
 """
 from __future__ import annotations
 
+import ast
 import time
 
 import z3
@@ -208,7 +209,62 @@ def walk_obligations(eng, classes, tier):
                                    paths, c_eq, tmo))
         obs.append(compare.raises_only(eng, f"{PID}.Component.__eq__.non_component_never_fails", "cal:Component.__eq__",
                                        source.lines_of(de.node), paths, [], tmo))
+        obs += eq_prefix_obligations(eng, de.node, tmo)
     return obs
+
+
+def eq_prefix_obligations(eng, node, tmo):
+    """the statements of Component.__eq__ BEFORE the multiset matching of the subcomponents, for two components: a different number
+    of subcomponents or unequal properties (CaselessDict.__eq__: C17) answer False at once; otherwise the matching is reached.
+    (The matching itself - greedy, needs == to be an equivalence on the subcomponents - is explored by the stand-in only.)"""
+    fn = "cal:Component.__eq__"
+    oid = f"{PID}.Component.__eq__.different_number_of_subcomponents_or_unequal_properties_is_False"
+    body = source.strip_docstring(node.body)
+    idx = [k for k, x in enumerate(body) if isinstance(x, ast.Assign) and "list(other.subcomponents)" in ast.unparse(x.value)]
+    if len(idx) != 1:
+        return [Obligation(oid, fn, "z3", UNDECIDED, detail="`unmatched = list(other.subcomponents)` not found", lines=source.lines_of(node))]
+    prefix = body[:idx[0]]
+    st, addr, m, i = component_state(eng, "Event")
+    M = z3.Int("n_subcomponents_of_other")
+    other = E.MapObj.fresh("other", cls="Event")
+    j = E.fresh("j", E.I)
+    st.assume(M >= 0)
+    other.fields["subcomponents"] = E.VList(st.alloc(E.ListObj([seqs.SegEntry(("range", z3.IntVal(0), M, j, E.VRef(child(other.ref, j))))])))
+    a_other = st.alloc(other)
+    st.assume(E.map_wf(other), E.cls_of(other.ref) == eng.lat.id("Event"))
+    props_equal = z3.Bool("properties_equal")
+    saved = eng.contracts.get("super:__eq__")
+    eng.contracts["super:__eq__"] = lambda e, s, a, k: [(s, E.VBool(props_equal))]
+    ob = Obligation(oid, fn, "z3", PROVED, lines=source.lines_of(node))
+    try:
+        st.env = {"self": E.VMap(addr), "other": E.VMap(a_other)}
+        results = eng.exec_block(prefix, st)
+    except E.Undecided as u:
+        ob.status, ob.detail = UNDECIDED, f"outside subset: {u}"
+        return [ob]
+    finally:
+        if saved is None:
+            eng.contracts.pop("super:__eq__", None)
+        else:
+            eng.contracts["super:__eq__"] = saved
+    from vc.pyvc.discharge import check_vc
+    n = 0
+    for s, sig in results:
+        n += 1
+        differs = z3.Or(N != M, z3.Not(props_equal))
+        if sig is None:
+            goal = z3.Not(differs)                       # the matching is reached only with equal counts and equal properties
+        elif sig[0] == "ret":
+            v = eng.unbox_known(sig[1], s)
+            goal = z3.And(differs, z3.Not(v.z)) if isinstance(v, E.VBool) else z3.BoolVal(False)
+        else:
+            goal = z3.BoolVal(False)
+        status, secs, info = check_vc(eng.axioms, [*s.pc, *s.qpc], goal, tmo)
+        compare.fold_status(ob, status, secs, info, f"path {n}")
+    ob.detail = ob.detail or f"{n} paths through the statements before the matching loop"
+    if ob.status == REFUTED:
+        ob.shape_only = True
+    return [ob]
 
 
 def run(rep: common.Report):
